@@ -123,8 +123,57 @@ def c14(rep, tier):
                  'Compiler/src/lexer.l:%d' % r['line'])
 
     L5 = rep.rule('C14.L5', 'scanner options: reentrant, noyywrap, yylineno, extra-type', floor=4)
-    for o in ('reentrant', 'noyywrap', 'yylineno'):
+    tokdef = ' '.join(l for l in spec.prologue if 'define TOK' in l.replace('#', '').replace('  ', ' '))
+    mline = re.search(r'Token\s*\((.*)\)\s*;', tokdef)
+    line_src = None
+    if mline:
+        # last top-level argument of the Token construction
+        depth, cur, args_ = 0, '', []
+        for ch in mline.group(1):
+            if ch in '([{':
+                depth += 1
+            elif ch in ')]}':
+                depth -= 1
+            if ch == ',' and depth == 0:
+                args_.append(cur.strip())
+                cur = ''
+            else:
+                cur += ch
+        args_.append(cur.strip())
+        line_src = args_[3] if len(args_) >= 4 else None
+    uses_yylineno = line_src == 'yylineno'
+    for o in ('reentrant', 'noyywrap'):
         L5.check(o in spec.options, 'option %s' % o, 'present', 'option %s missing' % o, 'Compiler/src/lexer.l')
+    if line_src is None:
+        L5.unknown('line source', 'cannot see which expression TOK passes as the line of a token')
+    elif uses_yylineno:
+        L5.check('yylineno' in spec.options, 'option yylineno', 'present: flex counts the newlines of every rule that can match one',
+                 'tokens are labelled with yylineno but %option yylineno is missing: the line stays at its initial value', 'Compiler/src/lexer.l')
+    else:
+        # a hand-written line counter: every rule that can match a newline has to count the newlines of its match
+        missing = []
+        unk = []
+        for i, r in enumerate(spec.rules):
+            w = lexspec.eol_witness(spec, i, dfa)
+            if w is None:
+                continue
+            body = re.sub(r'/\*.*?\*/', '', r['action'], flags=re.S)
+            var = re.escape(line_src)
+            counts = re.search(r"yytext\s*\[[^\]]+\]\s*==\s*'\\n'", body) and re.search(r'(%s\s*\+\+|\+\+\s*%s|%s\s*\+=\s*1)' % (var, var, var), body)
+            if counts:
+                continue
+            if line_src in body:
+                unk.append((i, r))
+            else:
+                missing.append((i, r, w))
+        for i, r, w in missing:
+            L5.violation('line source: rule %d %s' % (i + 1, r['pattern']), 'tokens are labelled with %s, a hand-written counter, but this rule can match a newline (e.g. %r) '
+                         'and does not count it: every later token of the file gets a line that is too small' % (line_src, w.decode('latin1')),
+                         'Compiler/src/lexer.l:%d' % r['line'], witness={'input': repr(w), 'rule': r['pattern']})
+        for i, r in unk:
+            L5.unknown('line source: rule %d %s' % (i + 1, r['pattern']), 'the action touches %s in a way this rule does not recognise' % line_src)
+        if not missing and not unk:
+            L5.ok('line source', 'every rule that can match a newline counts the newlines of its match into %s' % line_src, 'Compiler/src/lexer.l')
     L5.check(any(x.startswith('extra-type=') and 'ScannerInfo' in x for x in spec.options), 'option extra-type', 'Theo::ScannerInfo*', 'extra-type missing', 'Compiler/src/lexer.l')
 
     L6 = rep.rule('C14.L6', 'in the committed scanner every token-producing action builds Token(kind of its rule, matched text with its '
@@ -174,8 +223,11 @@ def c14(rep, tier):
                     no_len.append(i + 1)
                 if 'yyextra_r' not in show(a[2]) or 'filename' not in show(a[2]):
                     why.append('file is %s, not this scanner\'s file name' % show(a[2]))
-                if 'yy_bs_lineno' not in show(a[3]):
+                got = show(a[3]).replace('yyg->yyextra_r', 'yyextra').replace(' ', '')
+                if uses_yylineno and 'yy_bs_lineno' not in show(a[3]):
                     why.append('line is %s, not yylineno' % show(a[3]))
+                elif not uses_yylineno and line_src is not None and got != line_src.replace(' ', ''):
+                    why.append('line is %s, not the line source %s of the specification' % (show(a[3]), line_src))
             okret = len(rets) == 1 and strip_casts(rets[0]['e']).get('k') == 'int' and strip_casts(rets[0]['e'])['v'] != 0
             if not okret:
                 why.append('does not return a non-zero value')
@@ -289,7 +341,12 @@ def scan_rules(rep, sfacts):
     gc = M.cfg(cs)
     key = cs['params'][1]
     ln = [ev for ev in gc.calls() if is_call(ev.e, 'yyset_lineno')]
-    S3.check(len(ln) == 1 and strip_casts(ln[0].e['args'][0]).get('v') == 1 and gc.on_all_paths(ln[0]), 'create_scanner: first line', 'yyset_lineno(1, ...)', 'scanner does not start at line 1',
+    spec_ = lexspec.FlexSpec(os.path.join(os.environ.get('VERIF_REPO', '/repo'), 'Compiler/src/lexer.l'))
+    manual = not any('yylineno' in l for l in spec_.prologue if 'TOK' in l)
+    if manual and not ln:
+        S3.unknown('create_scanner: first line', 'tokens are labelled by a hand-written line counter: its initial value is not decided by this rule')
+    else:
+      S3.check(len(ln) == 1 and strip_casts(ln[0].e['args'][0]).get('v') == 1 and gc.on_all_paths(ln[0]), 'create_scanner: first line', 'yyset_lineno(1, ...)', 'scanner does not start at line 1',
              'Compiler/src/scan.cpp:%d' % cs['loc'][1])
     si = [e for e in walk_all_exprs(cs['body']) if e.get('k') == 'new' and 'ScannerInfo' in e.get('alloc_ty', '')]
     oksi = len(si) == 1 and si[0].get('init') is not None and any(x.get('k') == 'ref' and x.get('d') == key['d'] for x in walk_expr(si[0]['init']))
